@@ -356,6 +356,19 @@ func genC12(h *H) {
 		h.doLine("commute-priv", "bip_derive "+hx(seed)+" "+pathStr(nh)+" -1 "+strings.Join(deriveOracles(seed, nh, -1), " "))
 		h.doLine("commute-pub", "bip_derive "+hx(seed)+" "+pathStr(nh)+" 0 "+strings.Join(deriveOracles(seed, nh, 0), " "))
 	}
+	// keys decoded into long-lived receivers and neutered twins taken before a re-decode (see the bip_unmarshal op)
+	if m, err := ecckd.FromBitcoinSeed(h.randBytes(32)); err == nil {
+		c, _ := m.Child(uint32(h.rng.Intn(1<<31)) | 0x80000000)
+		for _, k := range []*ecckd.ExtendedKey{m, c} {
+			if k != nil {
+				bin, _ := k.MarshalBinary()
+				h.doLine("decode-into-used-objects", "bip_unmarshal "+hx(bin))
+				pb, _ := k.Public()
+				bin2, _ := pb.MarshalBinary()
+				h.doLine("decode-into-used-objects", "bip_unmarshal "+hx(bin2))
+			}
+		}
+	}
 	// directed search: children whose private key has a leading zero byte (32-byte padding)
 	found := 0
 	seed := h.randBytes(32)
